@@ -14,7 +14,7 @@ VARIABLES phase, cur, nst
 vars == <<lvars, phase, cur, nst>>
 
 (* constant values that a cfg file cannot express *)
-Seq2 == <<"r", "a">>
+Seq2 == <<"r", "b">>
 Seq3 == <<"r", "a", "b">>
 Seq4 == <<"r", "a", "b", "c">>
 DevIdeal    == {{}}
